@@ -9,7 +9,8 @@
 //!             only high priority telegrams are allowed.  `APP*` repeats its list forever.
 //!   peer:     `p<addr>:<st>:<data>:<tsdr_bits>:<master 0|1>:<next>:<delay_bits>:<poll_ts 0|1>`
 //!             st   = reaction to an FDL status request: s n r i (slave / not ready / ready / in ring),
-//!                    x none, g bad checksum, w wrong source, u token instead, h truncated, l late
+//!                    x none, g bad checksum, w wrong source, u token instead, h truncated, l late,
+//!                    y ready but wrong destination, z ready with status != Ok
 //!             data = reaction to a request that expects a reply: k response, c short confirmation,
 //!                    l late, f foreign source, d foreign destination, q request, t token, g bad
 //!                    checksum, h truncated, x none
@@ -22,6 +23,7 @@
 //!   `A <name> <obs>`                                              API call
 //!   `P <now> <busy> <rxhex> > <txhex> <consumed> <calls> <obs>`   one poll: inputs > outputs
 //!   `PANIC <loc>`                                                 the last call panicked
+//!   `TIMEOUT`                                                     the last call did not return within the per-case limit
 //!   calls: `-` or `,`-separated  T<i>:<hp>:<D|S>:<exp|->  R<i>:<addr>:<telegram>  O<i>:<addr>
 //!   obs:   `=` (unchanged) or `c<conn>r<in_ring>/<ns>/<ps>/<las state>/<active,..>/<fingerprint>`
 use crate::util::*;
@@ -32,6 +34,7 @@ use profirust::Baudrate;
 use std::cell::RefCell;
 use std::fmt::Write as _;
 use std::rc::Rc;
+use std::sync::{Arc, Mutex};
 
 pub const BAUDS: [Baudrate; 11] = [
     Baudrate::B9600,
@@ -393,6 +396,12 @@ impl Env {
                             'w' => Some(build(|tx| {
                                 tx.send_fdl_status_response(ts, (a + 1) % 126, ResponseState::MasterInRing, ResponseStatus::Ok)
                             })),
+                            'y' => Some(build(|tx| {
+                                tx.send_fdl_status_response(ts ^ 1, a, ResponseState::MasterWithoutToken, ResponseStatus::Ok)
+                            })),
+                            'z' => Some(build(|tx| {
+                                tx.send_fdl_status_response(ts, a, ResponseState::MasterInRing, ResponseStatus::NoResources)
+                            })),
                             'u' => Some(vec![0xDC, a, a]),
                             'h' => Some(good(ResponseState::Slave)[..3].to_vec()),
                             'l' => {
@@ -471,6 +480,7 @@ struct Runner {
     per: (u64, u64),
     slot_us: u64,
     out: String,
+    shared: Arc<Mutex<String>>,
     last_obs: String,
     rng: Rng,
     polls: usize,
@@ -520,6 +530,12 @@ fn compress(s: &str) -> String {
 }
 
 impl Runner {
+    /// Move what was written so far into the transcript the watchdog can see.
+    fn flush(&mut self) {
+        self.shared.lock().unwrap().push_str(&self.out);
+        self.out.clear();
+    }
+
     fn emit_obs(&mut self) {
         let o = obs_of(&self.fdl);
         if o == self.last_obs {
@@ -566,6 +582,7 @@ impl Runner {
         self.phy.consumed = 0;
         self.log.borrow_mut().clear();
         write!(self.out, "P {} {} {} > ", now, self.phy.busy as u8, hex(&self.phy.rx)).unwrap();
+        self.flush();
         let (fdl, phy, apps) = (&mut self.fdl, &mut self.phy, &mut self.apps);
         let r = guarded(|| {
             let mut refs: Vec<&mut dyn FdlApplication> = apps.iter_mut().map(|a| a as &mut dyn FdlApplication).collect();
@@ -606,7 +623,33 @@ impl Runner {
     }
 }
 
+/// Run one case in a worker thread; if it does not finish within the limit (VERIF_CASE_TIMEOUT_S,
+/// default 20 s) the transcript written so far is returned with a final `TIMEOUT` event.
 pub fn run_case(line: &str) -> String {
+    let limit: u64 = std::env::var("VERIF_CASE_TIMEOUT_S").ok().and_then(|s| s.parse().ok()).unwrap_or(20);
+    let shared = Arc::new(Mutex::new(String::new()));
+    let (tx, rx) = std::sync::mpsc::channel();
+    let (l, sh) = (line.to_string(), shared.clone());
+    std::thread::spawn(move || {
+        let r = run_case_inner(&l, sh);
+        let _ = tx.send(r);
+    });
+    match rx.recv_timeout(std::time::Duration::from_secs(limit)) {
+        Ok(r) => r,
+        Err(_) => {
+            let mut t = shared.lock().unwrap().clone();
+            if t.ends_with("> ") {
+                t.push_str("- 0 - =;");
+            } else if !t.is_empty() && !t.ends_with(';') {
+                t.push(';');
+            }
+            t.push_str("TIMEOUT");
+            t
+        }
+    }
+}
+
+fn run_case_inner(line: &str, shared: Arc<Mutex<String>>) -> String {
     let sections: Vec<&str> = line.split('/').map(|s| s.trim()).collect();
     let h: Vec<&str> = sections[0].split_whitespace().collect();
     assert!(h[0] == "FDL" && h.len() == 10, "bad FDL case header");
@@ -676,7 +719,8 @@ pub fn run_case(line: &str) -> String {
         late_bits: 15,
         per: (2, 8),
         slot_us,
-        out: String::with_capacity(1 << 14),
+        out: String::with_capacity(1 << 10),
+        shared: shared.clone(),
         last_obs: String::new(),
         rng: Rng::new(seed),
         polls: 0,
@@ -765,10 +809,12 @@ pub fn run_case(line: &str) -> String {
             break;
         }
     }
-    if r.out.ends_with(';') {
-        r.out.pop();
+    r.flush();
+    let mut t = shared.lock().unwrap().clone();
+    if t.ends_with(';') {
+        t.pop();
     }
-    r.out
+    t
 }
 
 // ------------------------------------------------------------------------------------------ generation
@@ -876,7 +922,7 @@ impl<'a> Gen<'a> {
 
     fn peer(&mut self, addr: u8, master: Option<(u8, bool)>) -> String {
         let r = &mut self.rng;
-        let st = if master.is_some() { *r.pick(&['i', 'i', 'r']) } else { *r.pick(&['s', 's', 's', 'n', 'r', 'i', 'x', 'g', 'w', 'u', 'h', 'l']) };
+        let st = if master.is_some() { *r.pick(&['i', 'i', 'r']) } else { *r.pick(&['s', 's', 's', 'n', 'r', 'i', 'x', 'g', 'w', 'u', 'h', 'l', 'y', 'z']) };
         let data = *r.pick(&['k', 'k', 'k', 'c', 'l', 'f', 'd', 'q', 't', 'g', 'h', 'x']);
         let tsdr = *r.pick(&[11u64, 11, 15, 30, 60]);
         let (m, next, poll) = match master {
@@ -1119,7 +1165,7 @@ impl<'a> Gen<'a> {
         };
         let mut peers = String::new();
         if where_ != p.addr {
-            let st = *self.rng.pick(&['r', 'i', 'r', 'n', 's']);
+            let st = *self.rng.pick(&['r', 'i', 'r', 'i', 'n', 's', 'w', 'y', 'z']);
             let ms = self.rng.chance(1, 2);
             write!(peers, "p{}:{}:k:11:{}:{}:40:0", where_, st, ms as u8, p.addr).unwrap();
         }
@@ -1127,6 +1173,94 @@ impl<'a> Gen<'a> {
         let n = Self::claim_polls(&p) + (p.hsa as usize) * 8 * (p.gap as usize + 2) + 300;
         let h = self.header(&p);
         self.emit(format!("{}{} / ENV {} on per:6:8 run:{}", h, apps, peers, n.min(2500)));
+    }
+
+    /// the station in a stable ring with one environment master for many token visits; small HSA so
+    /// that several GAP sweeps complete; responders inside the GAP that must not become successor; a
+    /// second master inside the GAP that appears later (found by the GAP poll itself)
+    fn stable_ring(&mut self) {
+        let mut p = self.params();
+        p.addr = self.rng.range(0, 6) as u8;
+        p.hsa = (p.addr as i64 + self.rng.range(3, 9)).min(126) as u8;
+        p.gap = *self.rng.pick(&[1u8, 1, 2, 3]);
+        p.baud = *self.rng.pick(&[1usize, 4, 5, 6, 7]);
+        p.slot = MIN_SLOT[p.baud];
+        p.ttr = *self.rng.pick(&[5000u32, 20000, 60000]);
+        // the other master: above TS below HSA, or below TS (wrap-around GAP)
+        let m = if p.addr > 1 && self.rng.chance(1, 3) {
+            self.rng.range(0, p.addr as i64 - 1) as u8
+        } else {
+            self.rng.range(p.addr as i64 + 2, p.hsa as i64 - 1).max(p.addr as i64 + 1) as u8
+        };
+        let mst = *self.rng.pick(&['r', 'i']);
+        let mut env = format!("p{}:{}:k:11:1:{}:{}:0", m, mst, p.addr, self.rng.range(34, 60));
+        // addresses strictly inside the GAP (TS, m)
+        let mut inside: Vec<u8> = vec![];
+        let mut a = (p.addr + 1) % p.hsa.max(1);
+        while a != m && a != p.addr && inside.len() < 12 {
+            inside.push(a);
+            a = (a + 1) % p.hsa.max(1);
+        }
+        let mut late_master: Option<u8> = None;
+        for a in inside.iter() {
+            match self.rng.below(6) {
+                0 => write!(env, " p{}:{}:k:11:0:{}:40:0", a, self.rng.pick(&['s', 'n', 'x', 'w', 'y', 'z']), a).unwrap(),
+                1 if late_master.is_none() => {
+                    late_master = Some(*a);
+                    write!(env, " p{}:{}:k:11:1:{}:40:0 kill:{}", a, self.rng.pick(&['r', 'i']), m, a).unwrap();
+                }
+                _ => {}
+            }
+        }
+        let apps = if self.rng.chance(1, 3) { self.apps(&[m]) } else { String::new() };
+        write!(env, " on per:8:8 run:{} per:4:8 run:{}", Self::claim_polls(&p) + 40, self.rng.range(700, 1500)).unwrap();
+        if let Some(q) = late_master {
+            write!(env, " rev:{} run:{}", q, self.rng.range(600, 1200)).unwrap();
+            if self.rng.chance(1, 2) {
+                write!(env, " kill:{} run:{}", q, self.rng.range(300, 600)).unwrap();
+            }
+        } else {
+            write!(env, " run:{}", self.rng.range(300, 900)).unwrap();
+        }
+        let h = self.header(&p);
+        self.emit(format!("{}{} / ENV {}", h, apps, env));
+    }
+
+    /// rings of 3..4 known stations (the station plus 2..3 environment masters); the station's
+    /// successor vanishes while it does not hold the token (or while it does), is removed after three
+    /// unanswered passes and - sometimes - comes back and is found again by the GAP poll
+    fn ring3(&mut self) {
+        let mut p = self.params();
+        p.addr = self.rng.range(0, 20) as u8;
+        p.hsa = *self.rng.pick(&[40u8, 60, 126]);
+        p.gap = *self.rng.pick(&[1u8, 2, 5]);
+        let nm = self.rng.range(2, 3) as usize;
+        let mut ms: Vec<u8> = vec![];
+        while ms.len() < nm {
+            let a = self.rng.range(0, p.hsa as i64 - 1) as u8;
+            if a != p.addr && !ms.contains(&a) {
+                ms.push(a);
+            }
+        }
+        ms.sort();
+        let pred = *ms.iter().rev().find(|a| **a < p.addr).unwrap_or(ms.last().unwrap());
+        let succ = *ms.iter().find(|a| **a > p.addr).unwrap_or(&ms[0]);
+        let mut peers = vec![];
+        for (i, a) in ms.iter().enumerate() {
+            let next = ms[(i + 1) % ms.len()];
+            peers.push(format!("p{}:i:k:11:1:{}:{}:{}", a, next, self.rng.range(34, 70), (*a == pred) as u8));
+        }
+        let apps = if self.rng.chance(1, 2) { self.apps(&ms.clone()) } else { String::new() };
+        let mut env = format!("{} on start:{} per:3:8 run:{}", peers.join(" "), ms[0], self.rng.range(500, 900));
+        write!(env, " kill:{} run:{}", succ, self.rng.range(150, 400)).unwrap();
+        if self.rng.chance(1, 2) {
+            write!(env, " rev:{} run:{}", succ, self.rng.range(300, 700)).unwrap();
+        }
+        if self.rng.chance(1, 3) {
+            write!(env, " kill:{} run:{}", pred, Self::claim_polls(&p) + 200).unwrap();
+        }
+        let h = self.header(&p);
+        self.emit(format!("{}{} / ENV {}", h, apps, env));
     }
 }
 
@@ -1153,5 +1287,11 @@ pub fn gen(seed: u64, thorough: bool, out: &mut dyn FnMut(String)) {
     }
     for _ in 0..400 * scale {
         g.gap_corner();
+    }
+    for _ in 0..350 * scale {
+        g.stable_ring();
+    }
+    for _ in 0..350 * scale {
+        g.ring3();
     }
 }
